@@ -781,9 +781,21 @@ def toc_stream(run, rng, thorough):
 def check(run):
     rng = random.Random(run.seed * 7919 + 15)
     thorough = run.tier == 'thorough'
-    common.prove(run, 'C15', ['model/C15Style.vo', 'model/C15StyleSpec.vo'])
+    common.prove(run, 'C15', ['model/C15Style.vo', 'model/C15StyleSpec.vo', 'model/C15Scope.vo', 'model/C15Loop.vo'])
     run.trusted += ['Coq 8.16.1 kernel (coqc); vm_compute for the cases.v evaluation',
-                    'harness/p_c15.py printers of dictionary entries as Coq terms; harness/impl_c15.py']
+                    'harness/p_c15.py printers of dictionary entries / DOM trees as Coq terms; harness/impl_c15.py',
+                    'hand-written models model/C15Style.v (counters.py) and model/C15Scope.v (build.py): validated on '
+                    'every run by the streams ua-styles, random-counter-style, raw-dictionaries, scope-renders',
+                    'model/C15StyleSpec.v and the reference interpreter of model/C15Scope.v as renditions of CSS Counter '
+                    'Styles 3 / CSS 2.1 12.4 + CSS Lists 3 (read from the specification text)',
+                    'toc-renders monitor judged in Python']
+    run.assumptions += ['the re-layout loop theorem is about an abstract model (model/C15Loop.v); the implementation side is the '
+                        'toc-renders monitor: a wrong page number after an early exit is a violation, after 8 passes the '
+                        'outcome not-converged',
+                        'target-text(), target-counters() and the remake_page caching are monitored through full renders only',
+                        'pad counts code points (Python len); CSS counts grapheme clusters: symbols with combining marks are not generated',
+                        'counter scoping: instantiation of a counter by a bare counter()/counters() use (CSS Lists 3) is not part of '
+                        'the property text and not demanded']
     # ---- stream a: predefined styles
     (st, ua), = common.run_impl('impl_c15', 'ua_dump', [None])
     if st != 'ok':
